@@ -155,7 +155,7 @@ Contract(
     hints=lambda c, r: [LInt.ext_facts(r.keys, c.minima.keys)],
     loops={0: LoopSpec("for (index, summ) in minima.items()", _ms_outer), 1: LoopSpec("for subsum in summ", _ms_inner)},
     properties=["C05", "C17"],
-    fuel=7,
+    fuel=6,
 )
 
 
@@ -472,7 +472,7 @@ Contract(
         "2.1": LoopSpec("[... for s in softc]", lambda s, j, pre: [s.A(s.wcnf) == pre.A(pre.wcnf)] + _soft_one(s, j, pre)),
     },
     properties=["C05", "C12"],
-    fuel=8,
+    fuel=7,
 )
 
 
@@ -546,7 +546,7 @@ Contract(
         2: LoopSpec("for constraint in csp", _inf_inv2, ints=True),
     },
     properties=["C05", "C12"],
-    fuel=8,
+    fuel=7,
     axioms=[IT.HOLDUPTO_ALL2],
     note="answer = no assignment satisfies base CSP + query constraints (over the MCS lists computed by the assumed enumeration); the shortcut for bases without any falsifiable conditional returns False",
 )
@@ -586,5 +586,5 @@ Contract(
     modifies=["self.base_csp", "self.epistemic_state.vMin", "self.epistemic_state.fMin", "self.epistemic_state.base_csp", "self.epistemic_state.v_cnf_dict", "self.epistemic_state.f_cnf_dict", "self.epistemic_state.nf_cnf_dict"],
     properties=["C05", "C12"],
     axioms=MEM_AT,
-    fuel=6,
+    fuel=5,
 )
